@@ -4,7 +4,9 @@ import LocustModel.Store.Proto
   listing `L…`, or `LAT <n>` for the ingestion-latency stream.
   Output:  <model listing + catalogue> TAB <OK | BAD … | SKIP>
     model: files predicted by the machine model (catalogue file, log segments, partition files) and its catalogue;
-    spec : after a completed flush the listing must be exactly {meta} ∪ files of the catalogue found on disk.
+    spec : after a completed flush the listing must be exactly {meta} ∪ files of the catalogue found on disk;
+           in every step the observed effect phases must store partition files before the catalogue file and remove
+           files only after it.
 -/
 namespace LM.DrvC18
 open LM.Proto LM.Store.Drv
@@ -13,13 +15,18 @@ def step (line : String) : String :=
   match splitTokens line with
   | "LAT" :: _ => "returned\treturned"   -- C18_ingest_enabled_after_freeze: every call is enabled once the freeze ran
   | _ =>
-  match runLine line with
+  match runLine2 line with
   | none => "bad-op\tbad-op"
-  | some (s, ltok) =>
-    let model := listingModel s ++ " " ++ catalogueModel s
-    let spec := match ltok with
+  | some (s, ltok, etok) =>
+    let model := listingModel s ++ " " ++ catalogueModel s ++ (if etok.isSome then " " ++ effectsModel s else "")
+    let specL := match ltok with
       | some l => if s.lastWasFlush then judgeListing s.lastObs l else "SKIP"
       | none => "SKIP"
+    let specE := match etok with
+      | some e => judgeEffects e
+      | none => "SKIP"
+    let spec := if specL.startsWith "BAD" then specL else if specE.startsWith "BAD" then specE
+                else if specL = "SKIP" && (specE = "SKIP" || etok = some "E_") then "SKIP" else "OK"
     model ++ "\t" ++ spec
 
 end LM.DrvC18
